@@ -95,7 +95,7 @@ func (x *Exec) note(s string) { x.Assumed[s] = true }
 
 // oblige records an obligation; afterwards the goal may be assumed.
 func (x *Exec) oblige(kind, name string, guard, goal *smt.Term, pos token.Pos, text string, soft bool) {
-	if x.dry > 0 || x.spec > 0 {
+	if x.dry > 0 || (x.spec > 0 && kind != "unwind" && kind != "unsupported") {
 		return
 	}
 	if goal == x.b.True || guard == x.b.False {
@@ -703,7 +703,16 @@ func (x *Exec) execBlock(fr *Frame, b *ssa.BasicBlock, edges []*Edge, env *Env) 
 		if _, ok := in.(*ssa.Phi); ok {
 			continue
 		}
-		if out, done := x.execInstr(bc, in); done {
+		out, done, unsup := x.execInstrGuarded(bc, in)
+		if unsup != "" {
+			// a construct outside the supported subset: the path is only
+			// acceptable if it is unreachable under the contract's preconditions
+			x.oblige("unsupported", fr.prefix+"unsupported-path-unreachable", bc.reach, x.b.False, posOf(in),
+				"unsupported construct must be unreachable: "+unsup, false)
+			x.note("paths through unsupported constructs are proved unreachable: " + unsup)
+			return nil
+		}
+		if done {
 			return out
 		}
 	}
@@ -874,4 +883,18 @@ func copyBoolMap(m map[string]bool) map[string]bool {
 		out[k] = v
 	}
 	return out
+}
+
+func (x *Exec) execInstrGuarded(bc *blockCtx, in ssa.Instruction) (out []*Edge, done bool, unsup string) {
+	defer func() {
+		if r := recover(); r != nil {
+			if u, ok := r.(unsupportedErr); ok && x.dry == 0 && !strings.Contains(u.msg, "time budget") {
+				unsup = u.msg
+				return
+			}
+			panic(r)
+		}
+	}()
+	out, done = x.execInstr(bc, in)
+	return
 }
